@@ -209,6 +209,35 @@ impl Family for SyncFam {
         }
     }
 
+    fn yields(op: &SOp) -> Option<bool> {
+        match op {
+            SOp::Yield => Some(true),
+            SOp::Park => None,
+            _ => Some(false),
+        }
+    }
+    fn m_no_sched_point(op: &GOp<SOp>) -> Option<&'static str> {
+        match op {
+            GOp::Op(SOp::OnceIsCompleted(_)) => Some("no-scheduling-point-before:Once::is_completed"),
+            GOp::Op(SOp::Park) => Some("no-scheduling-point-before:thread::park"),
+            GOp::Op(SOp::BarrierWait(_)) => Some("no-scheduling-point-before:blocking-Barrier::wait"),
+            _ => None,
+        }
+    }
+    fn m_fused_continue(m: &SM, t: usize, op: &SOp) -> bool {
+        match op {
+            // the arrival that releases the barrier returns in the same step
+            SOp::BarrierWait(b) => m.b[*b].released.contains(&(t, true)),
+            _ => false,
+        }
+    }
+    fn m_fuse_applies(m: &SM, _t: usize, op: &SOp) -> bool {
+        match op {
+            // the scheduling point is omitted only when the wait will block
+            SOp::BarrierWait(b) => m.b[*b].arrived.len() + 1 < m.b[*b].n,
+            _ => true,
+        }
+    }
     fn m_init(cfg: &SCfg, n: usize) -> SM {
         SM {
             m: vec![(None, 0); cfg.mutexes],
